@@ -29,7 +29,8 @@ class Writer:
         elif isinstance(thing, str):
             if shelly and shell_quote:
                 thing, escaped = shell_quote(thing)
-            self.write_literal(thing)
+            # `#` starts a comment (even inside quotes) unless it's escaped.
+            self.write_literal(thing.replace('#', '\\#'))
         elif isinstance(thing, safe_str.jbos):
             for i in thing.bits:
                 escaped |= self.write(i, syntax, shell_quote)
